@@ -268,8 +268,8 @@ prop('C06',
 
 prop('C14',
      modules=['WitnessVerif.Props.C14'],
-     scenarios=lambda tier: [sc('omni'), sc('tiles'), sc('feeder')],
+     scenarios=lambda tier: [sc('omni'), sc('tiles'), sc('feeder'), sc('binary')],
      diverge={'TF': None, 'TP': None, 'FD': {'closedloop'}},
-     nontrivial_line=lambda k, line: k in ('OM', 'OMF', 'TL'),
+     nontrivial_line=lambda k, line: k in ('OM', 'OMF', 'TL', 'BINP', 'BIND'),
      rule='omniwitness.Main in-process with ConfigLogs set to a generated configuration of seven logs sharing one key, one or two for every feeder type of the shipped configuration (sumdb, two tlog-tiles, pixel with height-1 tiles below a path, rekor as the active shard and as an inactive shard, serverless below a path) and one push-only log, served by independent in-memory stub log servers that accept only canonical paths (custom http.Transport), FeedInterval 40 ms, HTTP API on a local listener; growth schedules crossing 255/256/257 and 512/513 (thorough: 65535/65536/65537), in-memory storage (same object across restarts) and file-backed SQLite (reopened), the service restarted after every step; after each growth GET /witness/v0/logs/<id>/checkpoint must serve the published size and root, cosigned, within 200 poll intervals; then a fork of one log (diverging below the witnessed size), with and without restart: the served checkpoint must stay; plus the long-running SumDB feeders of the tiles scenario (small log and 65,800-leaf log, no restart), and the feeder scenario: every failure-free feed cycle against the real witness behind the real adapter is compared (calls, outcome, witness state afterwards) with the closed-loop model Omni.feedCycle that the byte-level theorem is about',
      assumptions=['liveness bound (poll intervals) and goroutine wiring are runtime observations'])
